@@ -353,7 +353,7 @@ def plan(tier, seed):
         tasks += [{"task": "updates", "examples": 1500} for _ in range(2)]
     else:
         tasks += [{"task": "triples", "slice": i, "nslices": 16, "sample": 1.0} for i in range(16)]
-        tasks += [{"task": "updates", "examples": 40000} for _ in range(8)]
+        tasks += [{"task": "updates", "examples": 15000} for _ in range(8)]
     return tasks
 
 
